@@ -15,6 +15,7 @@ values that may end in an exception) — nothing is bounded.
 * `reject_at_construction`, `constructed_sound` — "an argument that cannot be converted to an element is
                                  rejected with LenaTypeError when the sequence is constructed, never later"
 * `toTree_build`, `spec_regroup` — the same for programs over the real vocabulary, as the model driver evaluates them
+* `run_callables`             — a sequence of plain callables is their composition applied value by value
 * `mapS_mapS`, `mapS_total`, `filterS_total`, `fcSpec_total`, `sliceS_ofList`, `reverseS_ofList` — what "each
                                  element's stream transformation" is for callables, Filter, fill/compute elements,
                                  Slice and Reverse (values in order; which exception comes first) -/
@@ -765,5 +766,63 @@ example : sliceS (Lena.C17.mkSlice (some (-3)) (some 5) (some 2)) (.ofList [0, 1
 
 example : mapS (fun x => if x = 2 then .error .valueError else .ok (x + 1)) (.ofList [1, 2, 3])
     = (⟨[2], some .valueError⟩ : Strm Nat) := by decide
+
+/-! ### a sequence of callables -/
+
+theorem mapGo_pure (t : Option Exc) : ∀ (xs : List α), mapGo (fun x => (.ok x : Except Exc α)) t xs = ⟨xs, t⟩
+  | [] => rfl
+  | x :: xs => by simp [mapGo, mapGo_pure t xs, Strm.cons]
+
+theorem mapS_pure (s : Strm α) : mapS (fun x => (.ok x : Except Exc α)) s = s := by
+  obtain ⟨xs, t⟩ := s
+  exact mapGo_pure t xs
+
+/-- the value-by-value composition of a list of callables: `x ↦ en(...e2(e1(x)))`, stopping at the
+first one that raises -/
+def callAll (es : List (Element α)) (x : α) : Except Exc α := es.foldlM (fun v e => e.callDen v) x
+
+theorem fold_callables : ∀ (es : List (Element α)) (f0 : α → Except Exc α) (flow : Strm α),
+    (∀ e ∈ es, e.run.callable = false ∧ e.call = true) →
+    es.foldlM (fun fl e => e.den fl) (mapS f0 flow) = .ok (mapS (fun x => f0 x >>= callAll es) flow)
+  | [], f0, flow, _ => by
+    have : (fun x => f0 x >>= callAll ([] : List (Element α))) = f0 := by
+      funext x
+      cases f0 x <;> rfl
+    simp [this]; rfl
+  | e :: es, f0, flow, h => by
+    obtain ⟨hr, hc⟩ := h e (by simp)
+    have hden : e.den = fun s => .ok (mapS e.callDen s) := by
+      simp [Element.den, hr, hc]
+    rw [List.foldlM_cons, hden]
+    simp only [bind, Except.bind]
+    rw [mapS_mapS, fold_callables es _ flow (fun e' he' => h e' (by simp [he']))]
+    congr 2
+    funext x
+    simp only [callAll, List.foldlM_cons]
+    cases f0 x <;> rfl
+
+/-- **A sequence of plain callables is the callable composition, applied value by value**:
+`Sequence(f1, ..., fn).run(flow)` yields `fn(...f2(f1(v)))` for every `v` of the flow in order, and
+ends with the exception of the first value on which some `fi` raises (or with the flow's own end).
+Stage-by-stage evaluation (each stage consuming the whole output of the previous one) and
+value-by-value evaluation (what Python's generators do) agree. -/
+theorem run_callables (es : List (Element α))
+    (h : ∀ e ∈ es, e.hasNoData = false ∧ e.run.callable = false ∧ e.call = true)
+    (s : Seq α) (hs : mkSequence es = .ok s) (flow : Strm α) :
+    s.run flow = .ok (mapS (callAll es) flow) := by
+  have hd : dataSeq es = es := by
+    simp only [dataSeq, List.filter_eq_self]
+    intro e he; simp [(h e he).1]
+  rw [run_eq_fold es s hs flow, hd]
+  have := fold_callables es (fun x => .ok x) flow (fun e he => (h e he).2)
+  rw [mapS_pure] at this
+  rw [this]
+  congr 2
+
+example :
+    let inc : Element Nat := { call := true, callDen := fun x => .ok (x + 1) }
+    let odd : Element Nat := { call := true, callDen := fun x => if x % 2 = 1 then .ok x else .error .valueError }
+    (mkSequence [inc, odd, inc]).toOption.map (fun s => observe (s.run (.ofList [2, 4, 5, 6])))
+      = some ⟨[4, 6], some .valueError⟩ := by decide
 
 end Lena.C01
